@@ -35,11 +35,13 @@ structure Tables where
   simpleKeys : List Str                -- tuple in Rule.add
   addKeys : List (Str × Str)           -- (parameter name, key given to Rule.add), in code order
   mtypeLookup : Bool                   -- `_mtypes.get(mtype, mtype)` instead of `mtype`
+  clientEscapes : Bool                 -- client.addMatch writes an apostrophe in a value as '\''
   deriving DecidableEq, Repr
 
 def Tables.gen : Tables :=
   { mtypes := Gen.Route.mtypes, simpleKeys := Gen.Route.simpleKeys,
-    addKeys := Gen.Route.addKeys, mtypeLookup := Gen.Route.mtypeLookup }
+    addKeys := Gen.Route.addKeys, mtypeLookup := Gen.Route.mtypeLookup,
+    clientEscapes := Gen.Route.clientEscapes }
 
 /-- The tables the property theorems are proved for (the repaired router); the theorem
 `tables_current` (Properties/C12) states `Tables.gen = Tables.cur`, so an edit of any of these
@@ -52,7 +54,7 @@ def Tables.cur : Tables :=
                 ("path".toList, "path".toList), ("destination".toList, "destination".toList),
                 ("path_namespace".toList, "path_namespace".toList), ("args".toList, "args".toList),
                 ("arg_paths".toList, "arg_paths".toList), ("arg0namespace".toList, "arg0namespace".toList)],
-    mtypeLookup := true }
+    mtypeLookup := true, clientEscapes := true }
 
 /-- The tables of the tree before the repair of F15 (`type` stored under a key never evaluated). -/
 def Tables.pre : Tables :=
@@ -63,7 +65,7 @@ def Tables.pre : Tables :=
                 ("path".toList, "path".toList), ("destination".toList, "destination".toList),
                 ("path_namespace".toList, "path_namespace".toList), ("args".toList, "args".toList),
                 ("arg_paths".toList, "arg_paths".toList), ("arg0namespace".toList, "arg0namespace".toList)],
-    mtypeLookup := false }
+    mtypeLookup := false, clientEscapes := false }
 
 /-- Python values that end up inside a stored rule or come out of `getattr(m, key)`. -/
 inductive PyVal where
